@@ -27,7 +27,10 @@ RULE = ('every registered definition x argument tuples from the typed '
         'names under the real names; the same sweep in contexts created '
         'under the Python and the camelCase naming convention, in one '
         'process, in both orders of creation, with the keyword names '
-        'computed by a model of the convention; non-trivial = >=3 distinct spellings '
+        'computed by a model of the convention; before the valid spellings, '
+        'on the same context, calls of the same shapes that must be refused '
+        '(mandatory parameter skipped with an empty slot, unknown keyword); '
+        'non-trivial = >=3 distinct spellings '
         'applicable and the positional baseline succeeded; distinct = '
         'distinct (definition, filling)')
 ASSUMPTIONS = [
@@ -342,6 +345,47 @@ def _host_callable(*args):
 LAZY_DATA = [7, _host_callable, 'text']
 
 
+def _refused_calls(run, case, d, fill, conv):
+    """calls that are *not* valid spellings - a mandatory parameter skipped
+    with an empty slot, a keyword that does not exist - must be refused.
+    They run *before* the valid spellings of the same shapes, on the same
+    context (the definitions of a context live as long as the context), so
+    whatever they leave behind shows up as a disagreement of the valid
+    spellings."""
+    if d.varargs:
+        return True
+    pos_params = list(d.positional)
+    first = 1 if d.method_only else 0
+    for i in range(first, len(pos_params)):
+        if pos_params[i].has_default:
+            continue
+        c = W.default_call(d, fill, W.corpus())
+        positional = [('src', '') if j == i else f
+                      for j, f in enumerate(c.positional)]
+        if positional and positional[-1] == ('src', ''):
+            continue        # 'f(1,)' is a grammar error, not a call
+        text, binds = W.Call(d, positional, c.kw).render()
+        out = evaluate(text, lambda b=binds: b, conv)
+        run.count(1, cls='refused-call-before-the-spellings')
+        if out[0] == 'ok':
+            run.violate('mandatory-parameter-skipped-accepted', case,
+                        '%s: %s -> %r' % (d.id, text, out[1]),
+                        input_class=d.fd.name + '/skip-mandatory')
+            return False
+    if not d.no_kwargs and not d.kwargs:
+        base = W.default_call(d, fill, W.corpus())
+        text, binds = W.Call(d, base.positional, base.kw + [
+            ('noSuchKeyword', ('src', '1'))]).render()
+        out = evaluate(text, lambda b=binds: b, conv)
+        run.count(1, cls='refused-call-before-the-spellings')
+        if out[0] == 'ok':
+            run.violate('unknown-keyword-accepted', case,
+                        '%s: %s -> %r' % (d.id, text, out[1]),
+                        input_class=d.fd.name + '/unknown-keyword')
+            return False
+    return True
+
+
 def check_def(run, case):
     conv = case.get('conv')
     if 'order' in case:
@@ -361,6 +405,8 @@ def check_def(run, case):
         run.exclude('non-deterministic by documentation: ' + d.fd.name)
         return
     fill = case.get('fill', 0)
+    if not _refused_calls(run, case, d, fill, conv):
+        return
     sp = spellings(d, fill)
     results = []
     for label, make in sp:
